@@ -9,7 +9,7 @@
    internals are outside (props/C10/NOTES.md). *)
 From Sdns Require Import Common.Base Gen.C10 C10.Model C10.ModelStream C10.ModelShare C10.ModelPool
   C10.Proofs_UdpBase C10.Proofs_UdpInv C10.Proofs_UdpThm C10.Proofs_Stream C10.Proofs_Read C10.Proofs_Share C10.Proofs_Top
-  C10.Proofs_Pool C10.ModelChains C10.Proofs_Chains.
+  C10.Proofs_Pool C10.ModelChains C10.Proofs_Chains C10.Proofs_Read C10.Proofs_ConnFrames.
 Open Scope nat_scope.
 
 (* ties: the constants the proofs compute with are the source's *)
@@ -151,6 +151,31 @@ Theorem source_constants_stream :
   (forall n, go_largeClass n = (Z.of_N tcp_small_frame <? n)%Z).
 Proof. exact stream_constants. Qed.
 Print Assumptions source_constants_stream.
+
+(* conn_replies_in_query_order: one connection end to end.  For every drain size, every fill size
+   that holds a length prefix, every client byte stream and read chunking, every handler script,
+   write budget and SetDeadline outcome: what the client receives is a prefix of the frame stream
+   of payloads that are, in order, a subsequence of the replies to the first k well-formed query
+   frames of ITS OWN byte stream (ref_frames = the reference parser) — whole frames, in query
+   order, nothing else.  (Links conn_loop's served frames to the read side; closes the gap
+   "served frames not formally linked to f_frames".) *)
+Theorem conn_replies_in_query_order : forall D F scripts input reads script arms,
+  N.to_nat frame_prefix_len <= F ->
+  let fuel := S (length input) in
+  let st := fst (conn_loop fuel D F scripts (mkFstate 0 [] (mkRconn input reads)) (s_init script arms) []) in
+  exists k, is_prefix (wire st) (stream_of (t_acc st)) /\
+            subseq (t_acc st) (flat_map (frame_replies scripts) (firstn k (ref_frames fuel input))).
+Proof. exact conn_replies_lemma. Qed.
+Print Assumptions conn_replies_in_query_order.
+
+(* slab cache: slabCache.get(shard) tries c.shards[(shard+i)&(slabShardCount-1)] for
+   i = 0 .. slabShardCount-1 — whatever the hint, the sweep visits EVERY shard and never leaves the
+   array, so an idle slab anywhere is handed out before get gives up (why Model.ATake may treat the
+   sixteen shards as one set and allocate only when none is idle).  slabShardCount is the source's. *)
+Theorem slab_sweep_covers_every_shard : forall shard k, (k < slab_shard_count)%N ->
+  exists i, (i < slab_shard_count)%N /\ N.land (shard + i) (slab_shard_count - 1) = k.
+Proof. exact shard_sweep_covers. Qed.
+Print Assumptions slab_sweep_covers_every_shard.
 
 (* pooled_stream_forgets: the framing stream is pooled across connections.  Whatever the previous
    connection left in it — replies still staged after a failed write, a sticky write error —
